@@ -35,10 +35,15 @@ def classes_of(lines):
         names = [x[1] for x in walk(l) if x[0] == 'pos']
         if len(names) != len(set(names)):
             cl.add("same-positional-twice")
+    # `[options]` on one line while another (or the same) line names an option of the section explicitly: like docopt,
+    # rash then removes that option from EVERY `[options]`, which the documentation does not say
+    allnodes = [n for l in lines for n in walk(l)]
+    if any(n[0] == 'anyopts' for n in allnodes) and any(n[0] == 'opt' for n in allnodes):
+        cl.add("options-shortcut-beside-explicit-option")
     return sorted(cl)
 
 
-VALUED_SPELLINGS = ("-o", "--out", "--level")
+VALUED_SPELLINGS = ("-o", "--out", "--level", "-s", "--speed", "-m", "--mode", "--depth", "--allow")
 
 
 def k12_dangling_value(argv):
